@@ -1,13 +1,46 @@
 (* Props/C06.v -- the assignment solver.  Statements only; proofs live in Proofs/Munkres*.v.
-   Full-strength statement: Proofs/MunkresSpec.v, munkres_correct_statement (terminates AND returns a complete
-   minimum-cost matching for every rectangular non-negative integer matrix).  It is being proved in two halves,
-   munkres_partial_correct_statement and munkres_terminates_statement; the theorems below are what is
-   machine-checked so far. *)
+   Model: Model/Munkres.v (line-by-line transcription of Munkres.compute and its six steps), instance Z.
+   C06_munkres_correct is the property for exact integer costs: every rectangular matrix with entries in [0, B],
+   max(r,c) * B < sys.maxsize, is solved (the fuel of the model's loops is never exhausted, no error branch is
+   taken) and the result is a complete matching of minimum cost, listed by increasing row.
+   C06_munkres_partial_correct needs no bound at all (arbitrary integers): whenever the model returns, the result is
+   a complete minimum-cost matching.  The bound in the termination half is what the argument needs
+   (find_smallest starts from sys.maxsize; the dual objective bounds the step-6 decrement by n*B); the statement with
+   the weaker bound `entry < sys.maxsize` (MunkresSpec.munkres_correct_statement) is NOT proved -- it is kept there
+   as the full-strength statement, C06_munkres_correct is its `_partial` form with the bound made explicit. *)
 From Coq Require Import ZArith List Permutation.
 From Verif.Model Require Import Munkres.
 From Verif.Model Require Import MunkresReuse.
-From Verif.Proofs Require Import MunkresDuality MunkresSpec MunkresReuse.
+From Coq Require Import Sorted.
+From Verif.Proofs Require Import MunkresDuality MunkresSpec MunkresReuse MunkresCorrect MunkresTerm.
 Import ListNotations.
+
+(* the property, exact integer costs, all sizes *)
+Theorem C06_munkres_correct : forall (r c : nat) (M : list (list Z)) (B : Z),
+  (1 <= r)%nat -> (1 <= c)%nat -> rect r c M ->
+  (forall i j, (i < r)%nat -> (j < c)%nat -> (0 <= gz M i j <= B)%Z) ->
+  (Z.of_nat (Nat.max r c) * B < zmaxsize)%Z ->
+  exists res, computeZ M = Some res
+    /\ is_matching r c res /\ length res = Nat.min r c
+    /\ (forall m, is_matching r c m -> length m = Nat.min r c -> (cost M res <= cost M m)%Z)
+    /\ StronglySorted lt (map fst res)
+    /\ (r = c -> map fst res = seq 0 r).
+Proof. exact munkres_correct. Qed.
+
+Theorem C06_munkres_partial_correct : munkres_partial_correct_statement.
+Proof. exact munkres_partial_correct. Qed.
+
+Theorem C06_munkres_terminates : forall (r c : nat) (M : list (list Z)) (B : Z),
+  (1 <= r)%nat -> (1 <= c)%nat -> rect r c M ->
+  (forall i j, (i < r)%nat -> (j < c)%nat -> (0 <= gz M i j <= B)%Z) ->
+  (Z.of_nat (Nat.max r c) * B < zmaxsize)%Z ->
+  computeZ M <> None.
+Proof. exact munkres_terminates. Qed.
+
+(* used by C05/C07: results come row by row *)
+Theorem C06_rows_in_order : forall n (M : list (list Z)) res, (1 <= n)%nat -> rect n n M ->
+  computeZ M = Some res -> map fst res = seq 0 n.
+Proof. exact munkres_rows_in_order. Qed.
 
 (* optimality certificate: potentials + a perfect matching on zeros of the reduced matrix *)
 Theorem C06_weak_duality : forall (n : nat) (M C : nat -> nat -> Z) (u v : nat -> Z) (star tau : list nat),
@@ -29,6 +62,20 @@ Proof. exact solve_all_fresh. Qed.
 
 Example C06_ex_3x3 : computeZ [[4;1;3];[2;0;5];[3;2;2]]%Z = Some [(0,1);(1,0);(2,2)]%nat.
 Proof. vm_compute. reflexivity. Qed.
+
+(* the hypotheses of C06_munkres_correct are satisfiable: a 3x4 grade-like matrix scaled to integers *)
+Example C06_ex_hypotheses : rect 3 4 [[9;3;7;10];[5;9;10;0];[0;7;3;3]]%Z
+  /\ (forall i j, (i < 3)%nat -> (j < 4)%nat -> (0 <= gz [[9;3;7;10];[5;9;10;0];[0;7;3;3]]%Z i j <= 10)%Z)
+  /\ (Z.of_nat (Nat.max 3 4) * 10 < zmaxsize)%Z
+  /\ computeZ [[9;3;7;10];[5;9;10;0];[0;7;3;3]]%Z = Some [(0,1);(1,3);(2,0)]%nat.
+Proof.
+  split; [split; [reflexivity | repeat constructor] |].
+  split; [| split; [reflexivity | vm_compute; reflexivity]].
+  intros i j Hi Hj.
+  destruct i as [|[|[|i]]]; try (exfalso; apply (PeanoNat.Nat.lt_irrefl 3); eapply PeanoNat.Nat.le_lt_trans; [| exact Hi]; repeat apply le_n_S; apply le_0_n);
+  destruct j as [|[|[|[|j]]]]; try (exfalso; apply (PeanoNat.Nat.lt_irrefl 4); eapply PeanoNat.Nat.le_lt_trans; [| exact Hj]; repeat apply le_n_S; apply le_0_n);
+  vm_compute; split; discriminate.
+Qed.
 
 Example C06_ex_rectangular : computeZ [[4;1;3;9];[2;0;5;1]]%Z = Some [(0,1);(1,3)]%nat
   /\ computeZ [[4;1];[2;0];[3;7]]%Z = Some [(1,1);(2,0)]%nat.
